@@ -256,9 +256,13 @@ def segments(descs, vals):
 # ---------------------------------------------------------------------------
 # description -> codec objects
 
-def make_env_class(descs):
+def make_env_class(descs, shared=None):
+    """shared: {share key -> Envelope instance}; nested envelope fields carrying the same "share" key are built
+    from ONE Envelope object (inner.f(name1), inner.f(name2)), at whatever level they occur"""
     C = env()["codec"]
     objs, fields = {}, []
+    if shared is None:
+        shared = {}
     for i, f in enumerate(descs):
         t = f["t"]
         if t == "int":
@@ -284,10 +288,15 @@ def make_env_class(descs):
                     parts.append(C.BitField(name, bl, val=fixed))
             o = C.BitFieldSet(set=tuple(parts), **kw)
         elif t == "env":
-            inner = make_env_class(f["fields"])()
+            if f.get("share") in shared:
+                inner = shared[f["share"]]
+            else:
+                inner = make_env_class(f["fields"], shared)()
+                if "share" in f:
+                    shared[f["share"]] = inner
             o = inner.f(f["n"], len=f["len"]) if f.get("len") else inner.f(f["n"])
         elif t == "seq":
-            o = C.Sequence(item=make_env_class(f["item"])()).f(f["n"])
+            o = C.Sequence(item=make_env_class(f["item"], shared)()).f(f["n"])
         else:
             raise HarnessError("field type %r" % t)
         if "lref" in f:
@@ -513,7 +522,60 @@ def seq_desc(prog):
     return fields
 
 
+ALIAS_PROGRAMS = ["two-fields", "three-fields", "two-fields-flex", "seq-item-shared", "nested-shared",
+                  "seq-nested-ref", "seq-nested-fix", "seq-in-shared"]
+
+
+def alias_desc(prog):
+    """definitions in which one Envelope object serves several fields / several sequence elements"""
+    name = prog[1]
+
+    def inner():
+        return [int_desc("U8", "x"), int_desc("I16LE", "y")]
+
+    def nest(n, share="S", ln=3, fields=None):
+        return {"t": "env", "n": n, "len": ln, "fields": fields or inner(), "share": share, "kind": "shared-envelope"}
+    if name == "two-fields":
+        return [nest("a"), int_desc("U8", "m"), nest("b")]
+    if name == "three-fields":
+        return [nest("a"), nest("b"), nest("c")]
+    if name == "two-fields-flex":
+        return [nest("a"), nest("b", ln=0)]
+    if name == "seq-item-shared":
+        return [int_desc("U8", "pre"),
+                {"t": "seq", "n": "s", "len": 0, "item": [nest("p"), nest("q")], "kind": "sequence-of-shared", "_full": True}]
+    if name == "nested-shared":
+        def mid():
+            return [int_desc("U8", "h"), nest("i"), nest("j")]
+        return [nest("o1", "T", 7, mid()), nest("o2", "T", 7, mid())]
+    if name == "seq-nested-ref":
+        ld = int_desc("U8", "l")
+        ld["derive"] = ["enclen", "n"]
+        ld["kind"] = "U8(length)"
+        nd = {"t": "env", "n": "n", "len": 0, "lref": "l", "kind": "nested-in-sequence",
+              "fields": [int_desc("U8", "x"), {"t": "buf", "n": "y", "len": 0, "kind": "BufFlex"}]}
+        return [{"t": "seq", "n": "s", "len": 0, "item": [ld, nd], "kind": "sequence-of-nested", "_full": True}]
+    if name == "seq-nested-fix":
+        nd = {"t": "env", "n": "n", "len": 3, "fields": inner(), "kind": "nested-in-sequence"}
+        return [{"t": "seq", "n": "s", "len": 0, "item": [int_desc("U8", "t"), nd], "kind": "sequence-of-nested",
+                 "_full": True}]
+    if name == "seq-in-shared":
+        def holder():
+            return [int_desc("U8", "c"),
+                    {"t": "seq", "n": "s", "len": 0, "kind": "sequence-in-shared", "item": [int_desc("U8", "t"),
+                                                                                         int_desc("U16BE", "u")]}]
+        ld = int_desc("U8", "l")
+        ld["derive"] = ["enclen", "a"]
+        ld["kind"] = "U8(length)"
+        return [ld, {"t": "env", "n": "a", "len": 0, "lref": "l", "fields": holder(), "share": "H",
+                     "kind": "shared-envelope"},
+                {"t": "env", "n": "b", "len": 0, "fields": holder(), "share": "H", "kind": "shared-envelope"}]
+    raise HarnessError("alias program %r" % (prog,))
+
+
 def make_desc(prog):
+    if prog[0] == "alias":
+        return alias_desc(prog)
     if prog[0] == "env":
         return env_desc(prog[1])
     if prog[0] == "bfs":
@@ -690,6 +752,28 @@ def deep_copy(v):
     return v
 
 
+def has_nested(descs):
+    return any(f["t"] in ("env", "seq") for f in descs)
+
+
+def shared_object(v):
+    """(type name, paths) if one dict / list object occurs twice inside the decoded content, else None"""
+    seen = {}
+
+    def walk(x, path):
+        if isinstance(x, (dict, list)):
+            if id(x) in seen:
+                return (type(x).__name__, "%s and %s" % (seen[id(x)], path))
+            seen[id(x)] = path
+            it = x.items() if isinstance(x, dict) else enumerate(x)
+            for k, y in it:
+                r = walk(y, "%s/%s" % (path, k))
+                if r:
+                    return r
+        return None
+    return walk(v, "")
+
+
 def subset(a, b):
     """every value the caller supplied comes back"""
     if isinstance(a, dict):
@@ -710,7 +794,7 @@ class Judge:
         self.out = []
         self.cov = {"programs": 1, "assignments": 0, "error_cases": 0, "truncations": 0, "trailing": 0,
                     "illegal_values": 0, "fixed_flips": 0, "noncanonical": 0, "overwide": 0, "evaluations": 0,
-                    "octets_encoded": 0, "valid_prefixes": 0, "length_lies": 0}
+                    "octets_encoded": 0, "valid_prefixes": 0, "length_lies": 0, "history_pairs": 0}
         self.case = {"prog": prog, "size": size, "ndiag": ndiag}
 
     def viol(self, law, kind, msg):
@@ -725,6 +809,8 @@ class Judge:
         if descs is None:
             raise HarnessError("ill-formed program generated: %r" % (self.prog,))
         self.descs = descs
+        self.nested = has_nested(descs)
+        self.struct_kind = "flat" if not self.nested else (self.prog[1] if self.prog[0] == "alias" else self.prog[0])
         C = env()["codec"]
         cls = make_env_class(descs)
         self.E = cls()
@@ -740,7 +826,63 @@ class Judge:
         pv = pattern_vals(descs)
         self.illegal_values(pv)
         self.bitfield_faults(pv)
+        self.history(diag)
         return self
+
+    def history(self, diag):
+        """one definition object used repeatedly: what an earlier call returned must not change afterwards.
+        decode b1, keep the values (the top-level dict is the envelope's own content and is cleared by design, so
+        a shallow copy of it is kept: every nested dict / list / buffer in it is the object from_bytes() produced),
+        decode b2, compare; the same for the octets returned by to_bytes()."""
+        E = self.E
+        n = len(diag)
+        for i in range(n if n > 2 else n - 1):
+            v1, v2 = diag[i], diag[(i + 1) % n]
+            b1, b2 = r_pack(self.descs, v1), r_pack(self.descs, v2)
+            if b1 == b2:
+                continue
+            self.cov["history_pairs"] += 1
+            self.cov["evaluations"] += 1
+            try:
+                E.from_bytes(b1)
+                kept = dict(E.c)
+                snap = deep_copy(kept)
+                E.from_bytes(b2)
+                second = deep_copy(E.c)
+            except Exception:
+                continue                    # reported by the round-trip law
+            exp2 = r_unpack(self.descs, b2, True)[0]
+            if kept != snap:
+                self.viol("aliasing:decode-history", self.struct_kind,
+                          "values decoded from %s changed from %r to %r when the same definition decoded %s"
+                          % (b1.hex(), snap, kept, b2.hex()))
+            elif second != exp2:
+                self.viol("aliasing:decode-history-second", self.struct_kind,
+                          "second decode with the same definition: from_bytes(%s) = %r, expected %r"
+                          % (b2.hex(), second, exp2))
+            else:
+                E.c = kept
+                try:
+                    again = bytes(E.to_bytes())
+                except Exception as ex:
+                    again = None
+                    self.viol("aliasing:reencode-raises-" + type(ex).__name__, self.struct_kind, root_cause(ex))
+                if again is not None and again != b1:
+                    self.viol("aliasing:reencode-history", self.struct_kind,
+                              "re-encoding the kept first result gives %s, expected %s" % (again.hex(), b1.hex()))
+            try:
+                E.c = deep_copy(v1)
+                o1 = E.to_bytes()
+                c1 = bytes(o1)
+                E.c = deep_copy(v2)
+                o2 = E.to_bytes()
+            except Exception:
+                continue
+            if bytes(o1) != c1 or bytes(o2) != b2 or c1 != b1:
+                self.viol("aliasing:encode-history", self.struct_kind,
+                          "octets returned by to_bytes() for %r changed / differ after encoding %r with the same "
+                          "definition: %s then %s, expected %s then %s"
+                          % (v1, v2, bytes(o1).hex(), bytes(o2).hex(), b1.hex(), b2.hex()))
 
     # -- helpers ----------------------------------------------------------
     def culprit_enc(self, vals, got, exp):
@@ -806,6 +948,12 @@ class Judge:
             self.viol("decode-rejected" if r[0] == "err" else "decode-raises-" + r[1], "any",
                       "from_bytes(%s) failed, expected %r" % (ref.hex(), exp))
             return
+        if self.nested:
+            dup = shared_object(r[1])
+            if dup is not None:
+                self.viol("aliasing:shared-object", self.struct_kind,
+                          "from_bytes(%s): the decoded content holds one %s object in two places (%s); content %r, "
+                          "expected %r" % (ref.hex(), dup[0], dup[1], r[1], exp))
         if r[1] != exp:
             self.viol("decode-value", self.culprit_dec(exp, r[1]),
                       "from_bytes(%s) = %r, expected %r" % (ref.hex(), r[1], exp))
@@ -1154,6 +1302,7 @@ SEQ_MENU = ["U8", "U16BE", "I16LE", "B1", "BFS8"]
 
 def seq_programs(quick):
     items = [[a, b] for a in SEQ_MENU for b in SEQ_MENU] + ["TLV"]
+    items += [["U8", "NEST"], ["NEST", "U16BE"], ["NEST", "NEST"]]       # items holding a nested envelope
     for pre in (None, "U8", "U16LE"):
         for mode in ("flex", "ref"):
             for item in items:
@@ -1161,6 +1310,8 @@ def seq_programs(quick):
 
 
 def shape_of(prog):
+    if prog[0] == "alias":
+        return ("alias", prog[1])
     if prog[0] == "env":
         return ("env",) + tuple(sorted(prog[1]))
     if prog[0] == "bfs":
@@ -1197,6 +1348,7 @@ def all_programs(quick):
             if repr(p) not in seen:
                 progs.append((p, 3 if len(p[1]) == 1 else 2, NOCAP))
     seqs = [(p, 5, NOCAP) for p in seq_programs(quick)]
+    seqs += [(["alias", n], 5, 4000) for n in ALIAS_PROGRAMS]
     return seqs + progs                      # the most expensive definitions first (they get a work chunk each)
 
 
@@ -1238,7 +1390,7 @@ def cost(p):
         return min(5 ** min(len(prog[2]), 4), 256 if prog[1] == 8 else 625) + 60
     if prog[0] == "nest":
         return size ** (2 * len(prog[1]) + 2) * 2
-    return 1 << 30
+    return 1 << 30          # seq / alias programs: a work chunk each
 
 
 def run(ctx):
